@@ -38,6 +38,7 @@ func (e *Encoder) Encode(v interface{}) error {
 func (e *Encoder) EncodeWithOption(v interface{}, optFuncs ...EncodeOptionFunc) error {
 	ctx := encoder.TakeRuntimeContext()
 	ctx.Option.Flag = 0
+	ctx.Option.Context = nil // the pooled option block may still hold the context of an earlier call
 
 	err := e.encodeWithOption(ctx, v, optFuncs...)
 
@@ -143,6 +144,7 @@ func marshal(v interface{}, optFuncs ...EncodeOptionFunc) ([]byte, error) {
 
 	ctx.Option.Flag = 0
 	ctx.Option.Flag |= (encoder.HTMLEscapeOption | encoder.NormalizeUTF8Option)
+	ctx.Option.Context = nil // the pooled option block may still hold the context of an earlier call
 	for _, optFunc := range optFuncs {
 		optFunc(ctx.Option)
 	}
@@ -170,6 +172,7 @@ func marshalNoEscape(v interface{}) ([]byte, error) {
 
 	ctx.Option.Flag = 0
 	ctx.Option.Flag |= (encoder.HTMLEscapeOption | encoder.NormalizeUTF8Option)
+	ctx.Option.Context = nil // the pooled option block may still hold the context of an earlier call
 
 	buf, err := encodeNoEscape(ctx, v)
 	if err != nil {
@@ -194,6 +197,7 @@ func marshalIndent(v interface{}, prefix, indent string, optFuncs ...EncodeOptio
 
 	ctx.Option.Flag = 0
 	ctx.Option.Flag |= (encoder.HTMLEscapeOption | encoder.NormalizeUTF8Option | encoder.IndentOption)
+	ctx.Option.Context = nil // the pooled option block may still hold the context of an earlier call
 	for _, optFunc := range optFuncs {
 		optFunc(ctx.Option)
 	}
